@@ -1308,7 +1308,12 @@ where
 			let mut batch = Vec::with_capacity(unchecked_batch.len());
 
 			for call in unchecked_batch {
-				if let Ok(req) = deserialize_with_ext::call::from_str(call.get(), &extensions) {
+				// Only a JSON object can be a call, a notification or an invalid request that carries an id.
+				// The derived `Deserialize` impls would also read the sequence form of these structs
+				// (e.g. `["2.0", 1, "method", null]`), so anything that is not an object is rejected here.
+				if !call.get().starts_with('{') {
+					batch.push(Err(BatchEntryErr::new(Id::Null, ErrorCode::InvalidRequest.into())));
+				} else if let Ok(req) = deserialize_with_ext::call::from_str(call.get(), &extensions) {
 					batch.push(Ok(BatchEntry::Call(req)));
 				} else if let Ok(notif) = deserialize_with_ext::notif::from_str::<Notif>(call.get(), &extensions) {
 					batch.push(Ok(BatchEntry::Notification(notif)));
